@@ -19,6 +19,52 @@ func init() {
 			What:   "newBlockCipherList: key i == PBKDF2(pw, SHA256(BE64(slot_i(t))), 64, 32) for every password and instant (so equal slots give equal keys: with H8.1a, key agreement within 60 s of skew)",
 			Bounds: "32-byte password, all instants; SHA-256/PBKDF2 uninterpreted (decided by term identity plus solver on any difference)", Outside: "hash collisions"},
 	)
+	c07R := map[string]string{
+		"github.com/enfein/mieru/v3/pkg/cipher.CheckUserFromHint":                            "vStubHint",
+		"(*github.com/enfein/mieru/v3/pkg/cipher.StatelessDecryptor).TryDecrypt":             "vStubTryDecrypt",
+		"(*github.com/enfein/mieru/v3/pkg/protocol/serveruser.sourceUserCache).lookup":       "vStubLookup",
+	}
+	c07Note := "cryptography replaced by its outcome (ideal AEAD): per registered user the solver chooses independently whether the segment's hint names it and whether its credential opens the segment (shared credentials and hint collisions included); sync/atomic as plain cells (atomicity assumed); metrics counters no-ops"
+	reg("C07",
+		HarnessDef{ID: "H7.1", Spec: HarnessSpec{Name: "vH_C07_trystate", Pkg: "pkg/protocol/serveruser", LoopBound: 20, TimeoutS: 240, Par: 8, Redirects: c07R},
+			What:   "real tryState/tryUser/userByID on 3 registered users x every hint/credential outcome x hint-mandatory on/off x source present/absent x an ARBITRARY source-cache lookup result (any ids incl. 0, stale, duplicate, beyond the registry; any count): the attributed user's credential authenticates; a hinted authenticating user is preferred; nothing authenticates => reject; mandatory hints enforced; an admissible user => accept; each credential tried at most once; accept/reject, hint class and - with distinct credentials - the attributed user are independent of the cache",
+			Bounds: "3 users, cache lookup result of up to 3 ids (quick) / 16 ids (thorough harness H7.1f)", Outside: c07Note},
+		HarnessDef{ID: "H7.1f", Tier: "thorough", Spec: HarnessSpec{Name: "vH_C07_trystate_full", Pkg: "pkg/protocol/serveruser", LoopBound: 20, TimeoutS: 900, Par: 8, Redirects: c07R},
+			What: "same with the full 16-id cache lookup result", Bounds: "3 users, 16 cached ids each in 0..5", Outside: c07Note},
+		HarnessDef{ID: "H7.3", Spec: HarnessSpec{Name: "vH_C07_reload", Pkg: "pkg/protocol/serveruser", LoopBound: 20, LoopBounds: map[string]int{"discoverUser": 2}, TimeoutS: 240, Par: 8, Redirects: c07R},
+			What:   "real discoverUser with an environment step (a reload that removes user 'a' may be published and the old generation retired right after a discovery attempt): with requireCurrent the result belongs to the generation current at return, the attributed id is valid in that generation, identity/context/policy agree, the credential authenticates, the removed user is never authenticated after the reload completed; Record consumes the pending authentication",
+			Bounds: "one reload during the call (loop unwound twice, unwinding assertion proved), 3 users before / 2 after", Outside: c07Note + "; true concurrency of SetUsers with the lock-free cache"},
+	)
+	c08R := map[string]string{
+		"github.com/enfein/mieru/v3/pkg/cipher.newBlockCipherList":                       "vStubNewBlockCipherList",
+		"(*github.com/enfein/mieru/v3/pkg/cipher.aeadBlockCipher).DecryptStatelessTo":    "vStubDecryptStatelessTo",
+	}
+	reg("C08",
+		HarnessDef{ID: "H8.4a", Spec: HarnessSpec{Name: "vH_C08_key_cache_step", Pkg: "pkg/cipher", LoopBound: 8, TimeoutS: 240, Par: 6, Redirects: c08R},
+			What:   "key-cache validity, one step of the real StatelessDecryptor.tryDecryptAt/getCachedCiphers/selectDecryptStateless from an ARBITRARY cache state (own entry and process-wide entry each absent or derived for any epoch at any instant) with an arbitrary, also non-monotonic, clock and every jitter draw: a segment opens iff it is keyed for one of the three slots around the receiver's clock; cached key material is never used for another slot; afterwards the decryptor's entry is the current slot's; cache invariants preserved",
+			Bounds: "clock and entry times at whole seconds in 1970+20min..2^33 s, epochs any multiple of 120 s", Outside: "newBlockCipherList replaced by its contract keys = KDF(slot_i(now)) (decided by H8.1b); ideal AEAD per key; sync.Map/atomic.Pointer as plain cells; sub-second clock readings"},
+		HarnessDef{ID: "H8.4b", Spec: HarnessSpec{Name: "vH_C08_get_cached_ciphers", Pkg: "pkg/cipher", LoopBound: 8, TimeoutS: 240, Par: 4, Redirects: c08R},
+			What:   "getCachedCiphers from an arbitrary process-wide cache: the entry returned belongs to the current slot; a reused entry is not older than KeyRefreshInterval/4; a fresh one is stamped now and replaces the cached one",
+			Bounds: "as H8.4a", Outside: "as H8.4a"},
+	)
+	pkW := map[string]string{
+		"github.com/enfein/mieru/v3/pkg/protocol.newPadding":                  "vStubNewPaddingAnyLen",
+		"github.com/enfein/mieru/v3/pkg/protocol.buildRecommendedPaddingOpts": "vStubRecommendedOpts",
+		"github.com/enfein/mieru/v3/pkg/metrics.RegisterMetric":               "vStubRegisterMetric",
+	}
+	pkWNote := "length-level cipher (Encrypt/EncryptWithNonce only check the room they are given and write nothing); newPadding replaced by its contract (ANY length 0..maxLen); buildRecommendedPaddingOpts replaced by 'maxLen passed through'; fake PacketConn; low-entropy data types covered separately"
+	reg("C14",
+		HarnessDef{ID: "H14.2a", Spec: HarnessSpec{Name: "vH_C14_packet_write_session", Pkg: "pkg/protocol", LoopBound: 8, TimeoutS: 120, Par: 4, Redirects: pkW},
+			What:   "real PacketUnderlay.writeOneSegment, session segments (open/close request/response, payload 0..1024 incl. the piggybacked first write, retransmissions alike): the one datagram handed to the socket is <= MTU and equals 72 + payload(+16) + suffixLen with the lengths recorded in the metadata; no uint8 truncation; buffers large enough for every encryption",
+			Bounds: "MTU 1280..1500, every traffic pattern (nil / padding maxima any int32), every padding length the generator may return, client and server", Outside: pkWNote},
+		HarnessDef{ID: "H14.2b", Spec: HarnessSpec{Name: "vH_C14_packet_write_dataack", Pkg: "pkg/protocol", LoopBound: 8, TimeoutS: 120, Par: 4, Redirects: pkW},
+			What:   "same for data and ack segments (payload 0..maxFragmentSize(mtu), arbitrary previous prefix/suffix lengths as on a retransmission): datagram <= MTU, = 72 + prefixLen + payload(+16) + suffixLen, configured middle/end padding maxima honoured (0 = none)",
+			Bounds: "as H14.2a", Outside: pkWNote},
+	)
+	reg("C16",
+		HarnessDef{ID: "H16.2", Spec: HarnessSpec{Name: "vH_C14_packet_write_dataack", Pkg: "pkg/protocol", LoopBound: 8, TimeoutS: 120, Par: 4, Redirects: pkW},
+			What: "padding maxima of the traffic pattern are what the emitted UDP data/ack datagram exhibits (= C14 H14.2b)", Bounds: "as C14 H14.2b", Outside: pkWNote},
+	)
 	lb17 := map[string]int{"pdepGeneric": 64, "pextGeneric": 64, "vRefPdep": 64, "vRefPext": 64, "vRefEncodeChunk": 64, "vH_C17_rotation": 300}
 	mx := func(name, id, what string, to int) HarnessDef {
 		return HarnessDef{ID: id, Spec: HarnessSpec{Name: name, Pkg: "pkg/mathext", LoopBound: 64, LoopBounds: lb17, TimeoutS: to}, What: what,
@@ -154,8 +200,11 @@ func init() {
 		HarnessDef{ID: "H6.1a", Spec: HarnessSpec{Name: "vH_C06_cache_bmc", Pkg: "pkg/replay", LoopBound: 8, TimeoutS: 240, Par: 8, Solver: "cvc5-int", TimeUnit: "ns", Redirects: c06R}, ReplayPatches: c06P,
 			What:   "ReplayCache.IsDuplicate vs an ideal bounded set over every history of 5 calls from a fresh cache: never-seen => false; seen less than the interval ago and followed by fewer distinct items than the capacity => true; generations never exceed the capacity",
 			Bounds: "5 calls, capacity 1..3 and interval 1 ns..1 h symbolic, 4-item alphabet, arbitrary non-decreasing clock (ns) at every time.Now/time.Since inside a call, tag feature off; signatures = the items (FNV stubbed: injective on 1-byte data)", Outside: "histories longer than 5 calls; FNV collisions"},
-		HarnessDef{ID: "H6.1b", Spec: HarnessSpec{Name: "vH_C06_cache_bmc_tags", Pkg: "pkg/replay", LoopBound: 8, TimeoutS: 240, Par: 8, Solver: "cvc5-int", TimeUnit: "ns", Redirects: c06R}, ReplayPatches: c06P,
-			What: "same histories with arbitrary tags from {\"\", a, b}: a never-seen item is never reported", Bounds: "as H6.1a", Outside: "as H6.1a"},
+		HarnessDef{ID: "H6.1b", Spec: HarnessSpec{Name: "vH_C06_cache_bmc_tagsF", Pkg: "pkg/replay", LoopBound: 8, TimeoutS: 400, Par: 8, Solver: "cvc5-int", TimeUnit: "ns", Redirects: c06R}, ReplayPatches: c06P,
+			What:   "every history of 4 calls with arbitrary tags from {\"\", a, b}: a never-seen item is never reported; an item ACCEPTED under one tag less than the interval ago and followed by fewer distinct items than the capacity is reported EVERY time it is offered under another tag (or with either tag empty) - so a recorded datagram re-sent from another address is refused on the second attempt too",
+			Bounds: "4 calls, capacity 1..3, interval 1000 ns, 4-item alphabet, arbitrary non-decreasing clock at every reading", Outside: "longer histories; symbolic interval (thorough H6.1b-s); FNV collisions"},
+		HarnessDef{ID: "H6.1b-s", Tier: "thorough", Spec: HarnessSpec{Name: "vH_C06_cache_bmc_tags", Pkg: "pkg/replay", LoopBound: 8, TimeoutS: 1500, Par: 8, Solver: "cvc5-int", TimeUnit: "ns", Redirects: c06R}, ReplayPatches: c06P,
+			What: "same as H6.1b with a symbolic interval 1 ns..1 h", Bounds: "4 calls, capacity 1..3, 4 items", Outside: "as H6.1b"},
 		HarnessDef{ID: "H6.1c", Spec: HarnessSpec{Name: "vH_C06_cache_disabled", Pkg: "pkg/replay", LoopBound: 8, TimeoutS: 60},
 			What: "nil cache and capacity 0 never report a replay and never panic", Bounds: "-", Outside: "-"},
 	)
